@@ -24,4 +24,26 @@ CLAIMS = {
         "PLY facts re-derived from _ply/lex.py anchors (VERBOSE flag, rule order).",
         "technique": "regex ambiguity analysis on Glushkov automata built from source constants; CFG loop-progress and single-rescan rules",
     },
+    "C08": {
+        "level": "Static decision over the PLY rule list re-derived from source (regex constants folded, priority order from _ply/lex.py): "
+        "which rules can discard text, linear use of raw tokens in _fill_tokbuf, newline accounting per rule (language contains a newline "
+        "iff the rule counts newlines), keyword re-typing on all paths, maximal munch of fixed-string tokens, the full set of rule-order "
+        "shadowing pairs (703 ordered pairs, product reachability) against a reasoned reference set, UDL fusion facts, and language "
+        "inclusion of a reference literal grammar (22 classes) in the intended rule with no pre-emption by an earlier rule.",
+        "note": "Decides necessary structural conditions and, for the reference grammar, acceptance by the intended rule as a language-level "
+        "fact (exhaustive over the grammar, not sampled). Not decided: which match a backtracking regex prefers inside one rule (ordered "
+        "alternation), literal forms outside the reference grammar (raw strings, universal character names). Trusted: re._parser; the "
+        "reference grammar table in sa/props/c08.py; PLY anchors.",
+        "technique": "automata queries on lexer rule regexes (containment, shadowing, inclusion); CFG linear-use analysis of the buffer fill",
+    },
+    "C16": {
+        "level": "Complete finite decision for all ordered pairs (quick) and triples (thorough) of token classes: tokfmt's loop is "
+        "abstractly interpreted per class to find which pairs are printed without a blank, and for each such pair the product of the "
+        "class automata with every lexer rule of sufficient priority is searched for a match crossing the token boundary (or a comment "
+        "opener completed across it). Cross-checked at build time against the real lexer on 66 exemplars squared and cubed: same verdicts.",
+        "note": "Exhaustive over token classes (rule tokens, literals, keywords, re-typed names, UD_* fused literals). Sequences longer than 3 are "
+        "covered only in as far as fusion is a property of adjacent tokens (true for this lexer: no rule needs more than three tokens' text "
+        "except comment bodies, covered by the opener rule). Nine families ('.' next to a numeric literal) are genuine and listed in known_findings.json.",
+        "technique": "abstract interpretation of tokfmt over token classes + product-automaton boundary-crossing search",
+    },
 }
